@@ -1,6 +1,7 @@
 """C20: all accepted input forms of a value are interchangeable."""
 from fcat import Rng
 from props.regcommon import RB, entries
+from props.hist import encoded_region
 from vlib import parse_pairs
 
 ID = "C20"
@@ -50,6 +51,40 @@ def one(cat, rng, stack, cover):
     return b.s
 
 
+def encoded_items(cat, rng):
+    """Huffman: read items taken from an *encoded* region are one more input form; what a region learns from them
+    (its statistics) must be what it learns from slices — visible one merge generation later"""
+    b = RB(ID, cat, rng)
+    b.idx_cmp = "idx"
+    pool = encoded_region(b, rng, "s")
+    for _ in range(2 + rng.below(8)):
+        v = rng.pick(pool)
+        b.push("s", v, b.form_for(v))
+    b.new("a")      # fed read items of the encoded source
+    b.new("t")      # fed the canonical form
+    canon = cat["forms"][0]
+    for k, v in enumerate(b.h["s"].vals):
+        rp = rng.pick(["backed", "borrowed"])
+        na = b.raw("pushitem a s #%d %s" % (k, rp), ("prefix", "idx"), cmp="idx", sig="item-form-index@" + b.entry, shape="pushitem")
+        b.h["a"].vals.append(v)
+        kt, nt = b.push("t", v, canon)
+        b.s.lines[na].exp = ("same", nt)
+    b.readall("a", sig="form-changes-read@" + b.entry)
+    # next generation: both learned the same statistics, so both build the same code
+    b.merge("a2", ["a"])
+    b.merge("t2", ["t"])
+    pool2 = list(b.h["a"].vals)      # only what the two regions saw is covered by their statistics
+    for _ in range(2 + rng.below(6)):
+        v = rng.pick(pool2)
+        k1, n1 = b.push("a2", v, canon)
+        k2, n2 = b.push("t2", v, canon)
+        b.s.lines[n1].exp = ("same", n2)
+        b.s.lines[n1].sig = "item-form-changes-statistics@" + b.entry
+        b.read("a2", k1, sig="form-changes-read@" + b.entry)
+    b.s.nontrivial = True
+    return b.s
+
+
 COVER = set()
 
 
@@ -64,6 +99,9 @@ def generate(seed, tier):
         for st in cat["stacks"][:1]:
             for i in range(max(1, per // 4)):
                 out.append(one(cat, rng.fork(), st, set()))
+        if cat["entry"].startswith("huffman("):
+            for i in range(per * 3):
+                out.append(encoded_items(cat, rng.fork()))
     return out
 
 
